@@ -263,8 +263,12 @@ def run_c09b(ctx):
 # ------------------------------------------------------------------ C13
 VALS = ["v", "a b", "$HOME", "{x}", "}}", "a'b", ""]
 NAMESV = ["FRESHV", "AMBV", "DOTV", "BOTHV"]
-AMBIENT = {"AMBV": "ambient-value", "BOTHV": "ambient-both"}
-DOTENV = "DOTV=dotenv-value\nBOTHV=dotenv-both\n"
+AMBIENT = {"AMBV": "ambient-value", "BOTHV": "ambient-both", "LAYBOTH": "lay-ambient", "LAYAMB": "lay-ambient-only"}
+DOTENV = "DOTV=dotenv-value\nBOTHV=dotenv-both\nLAYBOTH=lay-dotenv\nLAYDOT=lay-dotenv-only\n"
+# layering of variables the spokfile does NOT define (beyond C13; recorded as observed behaviour, never a verdict):
+# .env is loaded without overriding what the ambient environment already sets
+LAYER_CMD = 'echo "$LAYBOTH/$LAYDOT/$LAYAMB"'
+LAYER_EXPECT = "lay-ambient/lay-dotenv-only/lay-ambient-only\n"
 
 
 def c13_scenarios(tier, seed):
@@ -306,6 +310,8 @@ def c13_scenarios(tier, seed):
             cs.append({"pieces": [{"k": "lit", "s": "echo pre"}, {"k": "t", "s": n}, {"k": "lit", "s": "post "}, {"k": "t", "s": n}], "envname": ""})
             cs.append({"pieces": [{"k": "lit", "s": 'echo "'}, {"k": "e", "s": n}, {"k": "lit", "s": '"'}], "envname": n})
         cs.append({"pieces": [{"k": "lit", "s": "echo plain | cat"}], "envname": ""})
+        cs.append({"pieces": [{"k": "lit", "s": 'echo "'}, {"k": "e", "s": "LAYBOTH"}, {"k": "lit", "s": "/"}, {"k": "e", "s": "LAYDOT"}, {"k": "lit", "s": "/"},
+                              {"k": "e", "s": "LAYAMB"}, {"k": "lit", "s": '"'}], "envname": ""})
         return cs
 
     # every name x every string value
@@ -360,10 +366,16 @@ def run_c13(ctx):
     report_bad(ctx, "C13", bad, recs, scen, meta, lambda i: "vars=%s: exit=%s observed cmds=%s %s" % (
         [(v["name"], v["kind"], v["val"] or v["args"] or v["cmd"]) for v in meta[i]["vars"]], recs[i]["steps"][0]["exit"], recs[i]["cmds"][:4], recs[i]["stderr"][-120:]),
         lambda i: "%s/%s" % ("+".join(sorted({v["kind"] for v in meta[i]["vars"]})), "+".join(sorted({"amb" if v["name"] in ("AMBV", "BOTHV") else ("dot" if v["name"] == "DOTV" else "fresh") for v in meta[i]["vars"]}))))
+    lay = [c["stdout"] for r in recs for c in r["cmds"] if c["cmd"] == LAYER_CMD]
+    layering = {"command": LAYER_CMD, "runs": len(lay), "as_modelled": sum(1 for x in lay if x == LAYER_EXPECT),
+                "note": "ambient wins over .env for variables the spokfile does not define (observed behaviour, not part of C13)"}
+    if lay and layering["as_modelled"] != len(lay):
+        ctx.notes.append("model_drift: .env / ambient layering of non-spokfile variables differs from the recorded rule: %r" % sorted(set(lay))[:3])
     nontriv = sum(1 for mt in meta if any(v["name"] != "FRESHV" for v in mt["vars"]))
     evidence(ctx, m, recs, nontriv, "variable tables (string / join / exec values; names also set in the ambient environment, in .env, in both) x commands mixing literal "
              "text, {{.NAME}} and $NAME, run through `spok t --json` as nobody; distinct_nontrivial = scenarios in which a variable name is also set in the ambient "
-             "environment or .env", st, [{"vars": [(v["name"], v["kind"]) for v in meta[i]["vars"]], "observed": recs[i]["cmds"][:3]} for i in sample_idx(ctx, recs, 3)])
+             "environment or .env", st, [{"vars": [(v["name"], v["kind"]) for v in meta[i]["vars"]], "observed": recs[i]["cmds"][:3]} for i in sample_idx(ctx, recs, 3)],
+             extra={"env_layering": layering})
 
 
 # ------------------------------------------------------------------ C12
